@@ -1,8 +1,132 @@
 /-
-  C07 — property theorems (see DESIGN.md §6 C07).  Helper lemmas live in Proofs/.
+  C07 — cancelling the context stops evaluation promptly (see DESIGN.md §6 C07).
+
+  The model's clock is the poll counter `State.ticks`: `ctx.Done()` is polled at the top of every iteration
+  of the `EVAL` loop (`State.poll`), and is closed from poll number `cancelAt` on.  Everything below is in
+  poll ticks; wall-clock latency (how long one builtin call, one `sleep`, one future wait may take between
+  two polls) is outside the model and is covered by the test engines of this property.
+  `Cancelled st` = the deadline has passed as seen from `st`; standard side condition: no debugger
+  (`st.stepper = none`).  Property theorems only; the proofs are in Proofs/EvalCancel.lean, Proofs/EvalTry.lean.
 -/
 import LispModel.Eval
+import LispModel.Proofs.EvalCancel
+import LispModel.Proofs.EvalTry
 namespace LispModel.Props.C07
-open LispModel
+open LispModel LispModel.Proofs.EvalCancel LispModel.Proofs.EvalTry
+
+/-- Once the context is cancelled, an iteration of the `EVAL` loop polls first and returns the timeout
+    error: no other work (no macro expansion, no special form, no call) is done — for every form, at every
+    depth, whether the program is looping (each `continue` is such an iteration), recursing, or expanding
+    macros. -/
+theorem every_iteration_polls_first (st : State) (h : Cancelled st) (F env : Nat) (ast : Val) (d : Nat) :
+    evalLoop (F + 1) st env ast d = (.err (timeoutErr ast), tick st) :=
+  evalLoop_cancelled h F env ast d
+
+/-- `EVAL` itself (no debugger): the timeout error after exactly one poll -/
+theorem eval_after_cancel (st : State) (h : Cancelled st) (hs : st.stepper = none) (F env : Nat) (ast : Val)
+    (d : Nat) : eval (F + 2) st env ast d = (.err (timeoutErr ast), tick st) :=
+  eval_cancelled h hs F env ast d
+
+/-- Cancellation is permanent: whatever any function of the evaluator does from a cancelled state, the state
+    it leaves is still cancelled (`cancelAt` is never written, `ticks` only grow) — through handlers,
+    finally bodies, builtin callbacks and macro expansion alike. -/
+theorem cancelled_stays_cancelled (st : State) (h : Cancelled st) (F env : Nat) (d : Nat) :
+    (∀ ast, Cancelled (eval F st env ast d).2) ∧
+    (∀ ast, Cancelled (evalLoop F st env ast d).2) ∧
+    (∀ ast, Cancelled (evalAst F st env ast d).2) ∧
+    (∀ xs, Cancelled (evalList F st env xs d).2) ∧
+    (∀ kvs, Cancelled (evalMap F st env kvs d).2) ∧
+    (∀ lst fr kl, Cancelled (doForms F st env lst fr kl d).2) ∧
+    (∀ bs a1, Cancelled (letBinds F st env bs a1 d).2) ∧
+    (∀ ast, Cancelled (macroexpand F st env ast d).2) ∧
+    (∀ f args, Cancelled (apply F st f args d).2) ∧
+    (∀ f xs, Cancelled (mapLoop F st f xs d).2) ∧
+    (∀ v path f, Cancelled (updateIn F st v path f d).2) ∧
+    (∀ v i f, Cancelled (update1 F st v i f d).2) ∧
+    (∀ name args, Cancelled (callBuiltin F st name args d).2) :=
+  ⟨fun _ => ((frame F).eval pairEta).cancelled h, fun _ => ((frame F).evalLoop pairEta).cancelled h,
+   fun _ => ((frame F).evalAst pairEta).cancelled h, fun _ => ((frame F).evalList pairEta).cancelled h,
+   fun _ => ((frame F).evalMap pairEta).cancelled h, fun _ _ _ => ((frame F).doForms pairEta).cancelled h,
+   fun _ _ => ((frame F).letBinds pairEta).cancelled h, fun _ => ((frame F).macroexpand pairEta).cancelled h,
+   fun _ _ => ((frame F).apply pairEta).cancelled h, fun _ _ => ((frame F).mapLoop pairEta).cancelled h,
+   fun _ _ _ => ((frame F).updateIn pairEta).cancelled h, fun _ _ _ => ((frame F).update1 pairEta).cancelled h,
+   fun _ _ => ((frame F).callBuiltin pairEta).cancelled h⟩
+
+/-- No effects after cancellation: from a cancelled state each evaluating function of the block leaves the
+    state exactly as it was, up to one poll tick (`AtMostOnePoll st st' := st' = st ∨ st' = tick st`): no
+    `trace!` effect, no binding, no atom write, no new scope.  (`callBuiltin "trace!"` itself appends without
+    polling, but it is only reached from the application arm of `evalLoop`, which has polled first.) -/
+theorem no_effects_after_cancel (st : State) (h : Cancelled st) (hs : st.stepper = none) (F env d : Nat) :
+    (∀ ast, AtMostOnePoll st (eval F st env ast d).2) ∧
+    (∀ ast, AtMostOnePoll st (evalLoop F st env ast d).2) ∧
+    (∀ ast, AtMostOnePoll st (evalAst F st env ast d).2) ∧
+    (∀ xs, AtMostOnePoll st (evalList F st env xs d).2) ∧
+    (∀ kvs, AtMostOnePoll st (evalMap F st env kvs d).2) ∧
+    (∀ lst fr kl, AtMostOnePoll st (doForms F st env lst fr kl d).2) ∧
+    (∀ bs a1, AtMostOnePoll st (letBinds F st env bs a1 d).2) :=
+  ⟨fun _ => eval_cancelled_amop h hs F env _ d, fun _ => evalLoop_cancelled_amop h F env _ d,
+   fun _ => evalAst_cancelled_any h hs F env _ d, fun _ => evalList_cancelled_any h hs F env _ d,
+   fun _ => evalMap_cancelled_any h hs F env _ d, fun _ _ _ => doForms_cancelled_any h hs F env _ _ _ d,
+   fun _ _ => letBinds_cancelled_any h hs F env _ _ d⟩
+
+/-- in particular the observable trace of effects is unchanged -/
+theorem no_trace_after_cancel (st : State) (h : Cancelled st) (hs : st.stepper = none) (F env : Nat) (ast : Val)
+    (d : Nat) : (eval F st env ast d).2.trace = st.trace ∧ (eval F st env ast d).2.marks = st.marks ∧
+      (eval F st env ast d).2.scopes = st.scopes ∧ (eval F st env ast d).2.atoms = st.atoms :=
+  (eval_cancelled_amop h hs F env ast d).same
+
+/-- The bound: from a cancelled state `EVAL` of ANY form performs at most one poll (exactly one when it has
+    fuel for two steps) — independent of the form, of how long it would run, of its `try` nesting. -/
+theorem polls_after_cancel_bounded (st : State) (h : Cancelled st) (hs : st.stepper = none) (F env : Nat)
+    (ast : Val) (d : Nat) : (eval F st env ast d).2.ticks ≤ st.ticks + 1 :=
+  (eval_cancelled_amop h hs F env ast d).ticks
+
+/-- A timeout (or any error) raised inside a try body after the deadline can be caught — the handler is
+    entered, its scope with the catch variable is created — but the handler's first form times out after one
+    poll and nothing else of it runs. -/
+theorem handler_runs_but_times_out (s1 : State) (hc : Cancelled s1) (hs : s1.stepper = none) (F : Nat)
+    (parts : TryParts) (env d : Nat) (e : Err) (x : String) (hx : x ≠ "&") (p : Option Pos) (h0 : Val)
+    (hrest : List Val) (hb : parts.catchBind = some (.sym x p)) (hd : parts.catchDo = some (h0 :: hrest)) :
+    handlerStage (F + 4) parts env d (.err e, s1) =
+      (.err (timeoutErr h0), tick (s1.newScope env [(x, caughtValue e)]).1) :=
+  handler_after_cancel hc hs F parts env d e hx p h0 hrest hb hd
+
+/-- Likewise a finally body entered after the deadline: one poll, its first form times out, the pending result
+    is returned. -/
+theorem finally_runs_but_times_out (s2 : State) (hc : Cancelled s2) (hs : s2.stepper = none) (F : Nat)
+    (parts : TryParts) (env d : Nat) (r : Res Val) (hr : r ≠ .oof) (f0 : Val) (frest : List Val)
+    (hf : parts.finallyDo = some (f0 :: frest)) :
+    finallyStage (F + 4) parts env d (r, s2) = (r, tick s2) :=
+  finally_after_cancel hc hs F parts env d r hr f0 frest hf
+
+/-- No handler or finally body can keep the evaluation alive past the deadline: when the body of
+    `(try body… (catch x h0 hs…) (finally f0 fs…))` ends with an error in a cancelled state, the whole form
+    returns (the handler's timeout error) exactly two polls later, whatever `h0 hs… f0 fs…` are. -/
+theorem handlers_cannot_outlive_cancel (st : State) (hl : Live st) (hst : st.stepper = none) (env : Nat)
+    (hm : NotMacro st env "try") (x : String) (hx : x ≠ "&") (F : Nat) (body : List Val) (hne : body ≠ [])
+    (h0 : Val) (hs : List Val) (f0 : Val) (fs : List Val) (d : Nat) (e : Err) (s1 : State)
+    (hbody : doForms (F + 4) (tick st) env body 0 false d = (.err e, s1)) (hc1 : Cancelled s1) :
+    evalLoop (F + 5) st env (tryCatchFinally body x h0 hs f0 fs) d =
+      (.err (timeoutErr h0), tick (tick (s1.newScope env [(x, caughtValue e)]).1)) :=
+  try_body_timeout hl hst hm hx F body hne h0 hs f0 fs d e s1 hbody hc1
+
+/-! ### non-vacuity: concrete programs on `initState` with a deadline -/
+
+/-- `(do (trace! 1) (trace! 2) (trace! 3))` with the context cancelled from poll 4 on: the first effect
+    happens, then the timeout error; the later effects do not. -/
+example :
+    let prog : Val := .list [.sym "do" none, .list [.sym "trace!" none, .int 1] none,
+      .list [.sym "trace!" none, .int 2] none, .list [.sym "trace!" none, .int 3] none] none
+    let r := eval 100 { initState with cancelAt := some 4 } 0 prog 0
+    ((r.1 matches .err _) && r.2.trace.length == 1 && r.2.ticks == 5) = true := by decide +kernel
+
+/-- a timeout inside `try`: `(try (do (trace! 1) (trace! 2)) (catch e (trace! 9)) (finally (trace! 8)))`
+    cancelled from poll 6: neither the handler's nor the finally's effect happens -/
+example :
+    let t (n : Int) : Val := .list [.sym "trace!" none, .int n] none
+    let prog : Val := .list [.sym "try" none, .list [.sym "do" none, t 1, t 2] none,
+      .list [.sym "catch" none, .sym "e" none, t 9] none, .list [.sym "finally" none, t 8] none] none
+    let r := eval 100 { initState with cancelAt := some 6 } 0 prog 0
+    ((r.1 matches .err _) && r.2.trace.length == 1) = true := by decide +kernel
 
 end LispModel.Props.C07
